@@ -188,3 +188,242 @@ def compare_prim(pid, cases, results, rng, L_of, tag="primcorr", npert=NPERT):
         else:
             stats["matched"] += 1
     return stats, mism
+
+
+# ----------------------------------------------------------------------------- unit correspondence of the simplex projections
+def gen_simplices(rng, n):
+    """2-, 3- and 4-point simplices (rows oldest first, the last row is the point just added) aimed at every leaf of the
+    projection trees: random ones, ones whose origin sits in the Voronoi region of a chosen vertex / edge / face / the
+    interior, exactly degenerate and lattice ones."""
+    out = []
+    feats = [(0,), (1,), (2,), (3,), (0, 1), (0, 2), (0, 3), (1, 2), (1, 3), (2, 3), (0, 1, 2), (0, 1, 3), (0, 2, 3), (1, 2, 3), (0, 1, 2, 3)]
+    for i in range(n):
+        k = rng.choice([2, 3, 4, 4, 4, 4])
+        mode = rng.choice(["random", "voronoi", "voronoi", "voronoi", "lattice", "near"])
+        sc = 10 ** rng.uniform(-2, 2)
+        if mode == "lattice":
+            P = np.array([[rng.choice([-2.0, -1.0, -0.5, 0.0, 0.5, 1.0, 2.0]) for _ in range(3)] for _ in range(k)])
+        else:
+            P = np.array([[rng.gauss(0, 1) for _ in range(3)] for _ in range(k)]) * sc
+            if mode == "random":
+                P += np.array([rng.gauss(0, 1) for _ in range(3)]) * sc * rng.choice([0.0, 0.3, 1.0, 3.0])
+            else:
+                f = [j for j in rng.choice(feats) if j < k]
+                if not f:
+                    f = [k - 1]
+                w = np.array([rng.random() + 0.05 for _ in f])
+                w /= w.sum()
+                x = (w[:, None] * P[f]).sum(axis=0)          # a point of the feature
+                cen = P.mean(axis=0)
+                out_dir = x - cen
+                nrm = np.linalg.norm(out_dir)
+                if len(f) < k and nrm > 0:
+                    x = x + out_dir / nrm * sc * rng.choice([1e-6, 1e-2, 0.3, 2.0])     # pushed outward: Voronoi region of f
+                if mode == "near":
+                    x = x * (1 + 1e-9)
+                P = P - x
+        out.append(P.tolist())
+    return out
+
+
+def compare_projections(pid, rng, n, trace_lines=True, tag="projcorr"):
+    """/repo's project_line_origin / project_triangle_origin / project_tetra_to_origin (both Nesterov modules, jitted)
+    against Model/NesterovLoop.v on generated simplices: rewritten rows (exactly), inside flag, ray (1e-9)."""
+    simp = gen_simplices(rng, n)
+    res = cm.run_impl_parallel(pid, "narrowbproj", [dict(simplices=simp[i::8], trace_lines=trace_lines and i == 0) for i in range(8)],
+                               timeout=900, tag="proj")
+    impl = [None] * len(simp)
+    hits = {}
+    for w, rr in enumerate(res):
+        if rr["status"] != "ok":
+            raise RuntimeError(f"projection worker failed: {rr.get('log', '')[-300:]}")
+        for i, x in zip(range(w, len(simp), 8), rr["result"]["results"]):
+            impl[i] = x
+        for k, v in rr["result"].get("hits", {}).items():
+            hits.setdefault(k, set()).update(v)
+
+    def expr(P, pert=None):
+        rows = []
+        for j, p in enumerate(P):
+            if pert is not None:
+                p = [x * (1.0 + e) for x, e in zip(p, pert[j])]
+            rows.append(_v(p))
+        return "project_f [" + "; ".join(rows) + "]"
+    outs = cm.coq_eval_lines(pid, HEADER, [expr(P) for P in simp], tag=tag, per_file=100, timeout=1500)
+    stats = dict(compared=0, matched=0, skipped_unstable=0, mismatch=0, by_size={})
+    suspects = []
+    for i, (P, o, x) in enumerate(zip(simp, impl, outs)):
+        code, ray, rows = parse(x)
+        for name in ("generic", "prim"):
+            r = o[name]
+            stats["compared"] += 1
+            why = None
+            if "exc" in r:
+                why = f"{name}: raised {r['exc']}"
+            elif code not in (0, 1):
+                why = f"model error code {code}"
+            elif bool(code) != r["inside"]:
+                why = f"{name}: inside model {bool(code)} implementation {r['inside']}"
+            elif rows != r["rows"]:
+                why = f"{name}: rewritten simplex rows differ: model {rows} implementation {r['rows']}"
+            elif not vclose(ray, r["ray"], rel=1e-9) and not (np.linalg.norm(np.array(ray) - np.array(r["ray"])) <= 1e-12 * max(1e-300, float(np.max(np.abs(P))))):
+                why = f"{name}: ray model {ray} implementation {r['ray']}"
+            if why:
+                suspects.append((i, name, why))
+            else:
+                stats["matched"] += 1
+                stats["by_size"][str(len(P))] = stats["by_size"].get(str(len(P)), 0) + 1
+    mism = []
+    if suspects:
+        # near-ties: does the model's own discrete outcome change under 1-10 ulp perturbations of the input points?
+        ex, idx = [], []
+        for (i, name, why) in suspects:
+            P = simp[i]
+            for kv in range(8):
+                mag = 3e-16 if kv % 2 == 0 else 2e-15
+                pert = [[rng.uniform(-mag, mag) for _ in range(3)] for _ in P]
+                ex.append(expr(P, pert))
+            idx.append(i)
+        o2 = cm.coq_eval_lines(pid, HEADER, ex, tag=tag + "2", per_file=100, timeout=1500)
+        for k, (i, name, why) in enumerate(suspects):
+            base = parse(outs[i])
+            sig0 = (base[0], len(base[2]))
+            unstable = False
+            for x in o2[8 * k: 8 * k + 8]:
+                c2, _, rows2 = parse(x)
+                if (c2, len(rows2)) != sig0:
+                    unstable = True
+            if unstable:
+                stats["skipped_unstable"] += 1
+            else:
+                stats["mismatch"] += 1
+                mism.append((i, name, why, simp[i]))
+    return stats, mism, {k: sorted(v) for k, v in hits.items()}
+
+
+def projection_leaf_coverage(repo, hits):
+    """of the statements inside the three projection functions (both modules), how many were reached by the generated simplices"""
+    import ast
+    out = {}
+    for key, fname in (("generic", "_gjk_nesterov_accelerated.py"), ("prim", "_gjk_nesterov_accelerated_primitives.py")):
+        p = repo / "distance3d" / "gjk" / fname
+        tree = ast.parse(p.read_text())
+        lines = set()
+        for fn in ast.walk(tree):
+            if isinstance(fn, ast.FunctionDef) and fn.name in ("project_line_origin", "project_triangle_origin", "project_tetra_to_origin", "t_b"):
+                for st in fn.body:
+                    for node in ast.walk(st):
+                        if isinstance(node, ast.stmt):
+                            lines.add(node.lineno)
+        got = set(hits.get(key, [])) & lines
+        out[key] = dict(statements=len(lines), executed=len(got), never_executed_lines=sorted(lines - got)[:30])
+    return out
+
+
+# ----------------------------------------------------------------------------- leaf-directed tetrahedra (generation guidance only)
+def tetra_leaf(d, c, b, a):
+    """Which leaf of project_tetra_to_origin a tetrahedron reaches, computed by a plain-Python replica of the TESTS of the
+    tree (line numbers of _gjk_nesterov_accelerated.py as leaf names).  Used only to pick inputs; never to judge."""
+    dot = lambda x, y: x[0] * y[0] + x[1] * y[1] + x[2] * y[2]  # noqa
+    cross = lambda x, y: (x[1] * y[2] - x[2] * y[1], x[2] * y[0] - x[0] * y[2], x[0] * y[1] - x[1] * y[0])  # noqa
+    aa = dot(a, a)
+    da, db, dc, dd = dot(d, a), dot(d, b), dot(d, c), dot(d, d)
+    da_aa = da - aa
+    ca, cb, cc = dot(c, a), dot(c, b), dot(c, c)
+    ca_aa = ca - aa
+    ba, bb = dot(b, a), dot(b, b)
+    bc, bd = cb, db
+    ba_aa, ba_ca, ca_da, da_ba = ba - aa, ba - ca, ca - da, da - ba
+    axb, axc = cross(a, b), cross(a, c)
+    t1 = ba * da_ba + bd * ba_aa - bb * da_aa
+    t2 = ba * ba_ca + bb * ca_aa - bc * ba_aa
+    t3 = ca * ba_ca + cb * ca_aa - cc * ba_aa
+    t4 = ca * ca_da + cc * da_aa - dc * ca_aa
+    t5 = da * da_ba + dd * ba_aa - db * da_aa
+    t6 = da * ca_da + dc * da_aa - dd * ca_aa
+    if ba_aa <= 0:
+        if -dot(d, axb) <= 0:
+            if t1 <= 0:
+                if da_aa <= 0:
+                    return 385 if t2 <= 0 else 387
+                if t2 <= 0:
+                    if t3 <= 0:
+                        return 392 if t4 <= 0 else 394
+                    return 396
+                return 398
+            if t5 <= 0:
+                return 401
+            if t4 <= 0:
+                return 405 if t6 <= 0 else 407
+            return 410 if t6 <= 0 else 412
+        if dot(c, axb) <= 0:
+            if t2 <= 0:
+                if t3 <= 0:
+                    return 418 if t4 <= 0 else 420
+                return 422
+            return 424
+        if dot(d, axc) <= 0:
+            if t4 <= 0:
+                return 429 if t6 <= 0 else 431
+            return 434 if ca_aa <= 0 else 436
+        return 438
+    if ca_aa <= 0:
+        if dot(d, axc) <= 0:
+            if da_aa <= 0:
+                if t4 <= 0:
+                    if t6 <= 0:
+                        return 446 if t5 <= 0 else 448
+                    return 450
+                return 453 if t3 <= 0 else 455
+            if t3 <= 0:
+                return 459 if t4 <= 0 else 461
+            return 464 if dot(c, axb) else 466
+        if dot(c, axb) <= 0:
+            return 470 if t3 <= 0 else 472
+        if -dot(d, axb) <= 0:
+            return 476 if t5 <= 0 else 478
+        return 480
+    if da_aa <= 0:
+        if -dot(d, axb) <= 0:
+            if t6 <= 0:
+                return 486 if t5 <= 0 else 488
+            if dot(d, axc) <= 0:
+                return 491
+            return 494 if dot(c, axb) <= 0 else 496
+        if dot(d, axc) <= 0:
+            return 500 if t6 <= 0 else 502
+        return 504
+    return 506
+
+
+def leaf_directed_tetrahedra(rng, per_leaf=6, budget=150000):
+    """random / Voronoi-directed tetrahedra bucketed by the leaf they reach: up to `per_leaf` per leaf"""
+    buckets = {}
+    pool = gen_simplices(rng, 4000)
+    tries = 0
+
+    def add(P):
+        lf = tetra_leaf(*[tuple(p) for p in P])
+        b = buckets.setdefault(lf, [])
+        if len(b) < per_leaf:
+            b.append(P)
+    for P in pool:
+        if len(P) == 4:
+            add(P)
+    while tries < budget:
+        tries += 1
+        sc = 10 ** rng.uniform(-1, 1)
+        mode = rng.random()
+        if mode < 0.5:
+            P = [[rng.gauss(0, 1) * sc for _ in range(3)] for _ in range(4)]
+            off = [rng.gauss(0, 1) * sc * rng.choice([0.0, 0.5, 1.0, 2.0]) for _ in range(3)]
+            P = [[p[k] + off[k] for k in range(3)] for p in P]
+        else:
+            # a realistic GJK situation: the newest point a lies beyond the old triangle seen from the origin
+            P = [[rng.gauss(0, 1) * sc for _ in range(3)] for _ in range(3)]
+            cen = [sum(p[k] for p in P) / 3 for k in range(3)]
+            a = [-cen[k] * rng.uniform(-0.5, 2.0) + rng.gauss(0, 1) * sc * rng.choice([0.1, 0.5, 1.0]) for k in range(3)]
+            P = P + [a]
+        add(P)
+    hist = {k: len(v) for k, v in sorted(buckets.items())}
+    return [P for v in buckets.values() for P in v], hist
